@@ -247,9 +247,9 @@ Proof.
       split; [|auto]. intros qn (qu0 & Hg & Ht). rewrite get_queue_set_queue' in Hg. destruct (seqb qn name); [|exists qu0; auto].
       inversion Hg; subst qu0. unfold trg, new_queue in Ht. cbn in Ht. rewrite andb_false_r in Ht. discriminate.
   - destruct (alookup _ _ _); [|exact H]. destruct (seqb ex ""); [exact H|].
-    destruct (queue_found s q); [|exact H]. destruct (locked _ _); [exact H|]. destruct (bad_xmatch _); [exact H|]. cbn [fst].
+    destruct (queue_found s q); [|exact H]. destruct (locked _ _); [exact H|]. destruct (bad_xmatch _); [exact H|]. destruct (extype_eqb _ ExTopic && bad_pattern _)%bool; [exact H|]. cbn [fst].
     eapply ADx_ale; [apply ale_same; reflexivity|exact H].
-  - destruct (alookup _ _ _); [|exact H]. destruct (queue_found s q); [|exact H]. destruct (locked _ _); [exact H|]. destruct (bad_xmatch _); [exact H|]. cbn [fst].
+  - destruct (alookup _ _ _); [|exact H]. destruct (queue_found s q); [|exact H]. destruct (locked _ _); [exact H|]. destruct (bad_xmatch _); [exact H|]. destruct (extype_eqb _ ExTopic && bad_pattern _)%bool; [exact H|]. cbn [fst].
     eapply ADx_ale; [apply ale_same; reflexivity|exact H].
   - (* MQPurge *)
     destruct (queue_found s q) as [qu|] eqn:Ef; [|exact H]. apply queue_found_get in Ef. destruct (locked _ _); [exact H|]. cbn [fst].
